@@ -1740,6 +1740,231 @@ Proof.
   intro Hf. apply (G h init false false inv_init); [discriminate|discriminate|exact Hf].
 Qed.
 
+(* ======================================================================= *)
+(* The API layer: calls expanded to primitives (Model expand), histories of completed and
+   interrupted CALLS (runa), and "loadIndex succeeds" including decoding of manifests. *)
+Section Api.
+Variable mt : N -> bool.
+Variable dec : N -> bool.
+
+Notation expd := (expand H mt dec).
+Notation crops := (crash_ops H shuffle false false true).
+Notation runA := (runa H shuffle false false true mt dec).
+Notation runcall := (run_acall H shuffle false false true mt dec).
+Notation loadok := (load_okb mt dec).
+
+Lemma crash_fs_zero s o : crash_fs H shuffle false false true s o 0 = sfs s.
+Proof. reflexivity. Qed.
+
+Lemma inv_reopen_here s : Inv s -> Inv (reopen (sfs s) (S (sctr s))).
+Proof. intro I. rewrite <- (crash_fs_zero s SaveIndex). now apply reopen_inv. Qed.
+
+Lemma inv_crash_ops os : forall s k, Inv s -> Inv (crops s os k).
+Proof.
+  induction os as [|o os IH]; intros s k I; cbn [crash_ops].
+  - now apply inv_reopen_here.
+  - destruct (Nat.leb k (length (steps s o))).
+    + cbn [run_hop]. now apply reopen_inv.
+    + apply IH. now apply op_safe.
+Qed.
+
+Lemma inv_run_acall s x : Inv s -> Inv (runcall s x).
+Proof.
+  intro I. destruct x as [a|a k]; cbn [run_acall]; [now apply inv_run|now apply inv_crash_ops].
+Qed.
+
+Lemma inv_runa h : forall s, Inv s -> Inv (runA h s).
+Proof.
+  induction h as [|x h IH]; intros s I; [exact I|].
+  cbn [runa fold_left]. apply IH. now apply inv_run_acall.
+Qed.
+
+(* ---------- every entry the resolver holds by digest decodes if it is manifest-typed ---------- *)
+Definition DecInv (s : st) : Prop := forall n, In n (sdigs s) -> mt n = true -> dec n = true.
+
+Definition ok_at (s : st) (o : op) : Prop :=
+  match o with
+  | Push d _ true => dec d = true
+  | Tag d _ => exists_file (sfs s) (FBlob d) = true -> mt d = true -> dec d = true
+  | _ => True
+  end.
+
+Fixpoint all_ok (s : st) (os : list op) : Prop :=
+  match os with
+  | [] => True
+  | o :: r => ok_at s o /\ all_ok (runop s o) r
+  end.
+
+Lemma digs_step s o n :
+  In n (sdigs (runop s o)) ->
+  In n (sdigs s) \/ (exists c, o = Push n c true) \/
+  (exists r, o = Tag n r /\ exists_file (sfs s) (FBlob n) = true).
+Proof.
+  unfold run_op. destruct o as [d c m|d r|r|d| |live]; cbn [op_mem].
+  - destruct (exists_file (sfs s) (FBlob d)); cbn [sdigs]; [now left|].
+    destruct (negb (H c =? d)); cbn [sdigs]; [now left|].
+    destruct m; cbn [sdigs]; [|now left].
+    intro Hin. apply dig_add_In in Hin as [->|Hin]; [right; left; now exists c|now left].
+  - destruct (exists_file (sfs s) (FBlob d)) eqn:Ex; cbn [sdigs]; [|now left].
+    intro Hin. apply dig_add_In in Hin as [->|Hin]; [right; right; exists r; now split|now left].
+  - destruct (tag_get r (stags s)); cbn [sdigs]; now left.
+  - cbn [sdigs]. intro Hin. apply filter_In in Hin as [Hin _]. now left.
+  - now left.
+  - cbn [sdigs]. intro Hin. apply filter_In in Hin as [Hin _]. now left.
+Qed.
+
+Lemma decinv_step s o : DecInv s -> ok_at s o -> DecInv (runop s o).
+Proof.
+  intros D Ho n Hin Hm. apply digs_step in Hin as [Hin|[(c & ->)|(r & -> & Ex)]].
+  - now apply D.
+  - exact Ho.
+  - now apply Ho.
+Qed.
+
+Lemma decinv_run os : forall s, DecInv s -> all_ok s os -> DecInv (run H shuffle false false true os s).
+Proof.
+  induction os as [|o os IH]; intros s D A; [exact D|].
+  destruct A as [Ao Ar]. cbn [run fold_left]. apply IH; [now apply decinv_step|exact Ar].
+Qed.
+
+Lemma all_ok_split pre : forall s o post,
+  all_ok s (pre ++ o :: post) -> DecInv s ->
+  DecInv (run H shuffle false false true pre s) /\ ok_at (run H shuffle false false true pre s) o.
+Proof.
+  induction pre as [|p pre IH]; intros s o post A D.
+  - cbn in *. now split; [|destruct A].
+  - cbn [app all_ok] in A. destruct A as [Ap Ar]. cbn [run fold_left].
+    apply (IH _ o post Ar). now apply decinv_step.
+Qed.
+
+Lemma all_ok_trivial os : (forall o, In o os -> forall s, ok_at s o) -> forall s, all_ok s os.
+Proof.
+  induction os as [|o os IH]; intros Ho s; [exact I|].
+  split; [apply Ho; now left|]. apply IH. intros o' Hin. apply Ho. now right.
+Qed.
+
+Lemma expand_all_ok s a : all_ok s (expd s a).
+Proof.
+  destruct a as [d c|d r|r|d cas| |live sw|]; cbn [expand].
+  - destruct (mt d) eqn:Em; [|cbn; auto].
+    destruct (dec d) eqn:Ed; [cbn; auto|].
+    destruct (exists_file (sfs s) (FBlob d)); [cbn; auto|].
+    destruct (H c =? d); cbn; auto.
+  - destruct (exists_file (sfs s) (FBlob d) && mt d && negb (dec d)) eqn:E; [exact I|].
+    cbn. split; [|exact I]. intros Ex Hm. rewrite Ex, Hm in E. cbn in E.
+    destruct (dec d); [reflexivity|discriminate].
+  - cbn. auto.
+  - apply all_ok_trivial. intros o [<-|Hin] s'; [exact I|].
+    apply in_map_iff in Hin as (x & <- & _). exact I.
+  - cbn. auto.
+  - apply all_ok_trivial. intros o [<-|Hin] s'; [exact I|].
+    apply in_map_iff in Hin as (x & <- & _). exact I.
+  - exact I.
+Qed.
+
+(* the resolver reloaded from index.json holds only names the file lists *)
+Lemma reopen_digs fs c n :
+  In n (sdigs (reopen fs c)) -> exists l r, read_index fs = Some l /\ In (n, r) l.
+Proof.
+  unfold reopen. destruct (read_index fs) as [l|]; cbn [sdigs]; [|intros []].
+  intro Hin. destruct (load_spec l [] []) as (_ & A2 & _); [intros r0 n0 []|].
+  apply A2 in Hin as [[]|(r & Hr)]. now exists l, r.
+Qed.
+
+Lemma decinv_reopen_cut s o k :
+  Inv s -> DecInv s -> ok_at s o ->
+  DecInv (reopen (crash_fs H shuffle false false true s o k) (S (sctr s))).
+Proof.
+  intros I D Ho n Hin Hm.
+  apply reopen_digs in Hin as (l & r & Hl & Hr).
+  destruct (op_safe s o I) as (I1 & _ & _ & R). destruct (R k) as (_ & _ & _ & RI & _).
+  rewrite Hl in RI. destruct RI as [RI|RI].
+  - destruct (inv_index s I) as (l0 & Hl0 & He). rewrite Hl0 in RI. injection RI as <-.
+    apply D; [exact (He (n, r) Hr)|exact Hm].
+  - destruct (inv_index _ I1) as (l1 & Hl1 & He). rewrite Hl1 in RI. injection RI as <-.
+    apply (decinv_step s o D Ho); [exact (He (n, r) Hr)|exact Hm].
+Qed.
+
+Lemma decinv_crash_ops os : forall s k, Inv s -> DecInv s -> all_ok s os -> DecInv (crops s os k).
+Proof.
+  induction os as [|o os IH]; intros s k I D A; cbn [crash_ops].
+  - rewrite <- (crash_fs_zero s SaveIndex). apply decinv_reopen_cut; [exact I|exact D|exact Logic.I].
+  - destruct A as [Ao Ar]. destruct (Nat.leb k (length (steps s o))).
+    + cbn [run_hop]. now apply decinv_reopen_cut.
+    + apply IH; [now apply op_safe|now apply decinv_step|exact Ar].
+Qed.
+
+Lemma decinv_runa h : forall s, Inv s -> DecInv s -> DecInv (runA h s).
+Proof.
+  induction h as [|x h IH]; intros s I D; [exact D|].
+  cbn [runa fold_left]. apply IH; [now apply inv_run_acall|].
+  destruct x as [a|a k]; cbn [run_acall].
+  - apply decinv_run; [exact D|apply expand_all_ok].
+  - apply decinv_crash_ops; [exact I|exact D|apply expand_all_ok].
+Qed.
+
+Lemma decinv_init : DecInv init.
+Proof. intros n []. Qed.
+
+(* loadIndex succeeds on a quiescent state ... *)
+Lemma load_ok_state s : Inv s -> DecInv s -> loadok (sfs s) = true.
+Proof.
+  intros I D. unfold load_okb. destruct (inv_index s I) as (l & Hl & He). rewrite Hl.
+  apply forallb_forall. intros e Hin. apply andb_true_iff. split.
+  - pose proof (inv_digs s I _ (He e Hin)) as Hh. unfold has in Hh. unfold exists_file.
+    destruct (files (sfs s) (FBlob (fst e))); [reflexivity|contradiction].
+  - destruct (mt (fst e)) eqn:Em; [|reflexivity]. cbn. exact (D _ (He e Hin) Em).
+Qed.
+
+(* ... and on the directory found after any cut of any call, after any history of completed
+   and interrupted calls *)
+Theorem api_crash_load_ok (h : list acall) (a : api) k :
+  let s := runA h init in
+  loadok (crash_seq H shuffle false false true s (expd s a) k) = true.
+Proof.
+  intro s.
+  assert (I : Inv s) by (apply inv_runa; apply inv_init).
+  assert (D : DecInv s) by (apply decinv_runa; [apply inv_init|apply decinv_init]).
+  pose proof (expand_all_ok s a) as A.
+  destruct (seq_cut (expd s a) s k) as [(pre & o & post & k' & Eq & Ec)|Ef].
+  - rewrite Ec. rewrite Eq in A. destruct (all_ok_split pre s o post A D) as [Dj Oj].
+    set (sj := run H shuffle false false true pre s) in *.
+    assert (Ij : Inv sj) by (apply inv_run; exact I).
+    destruct (op_safe sj o Ij) as (I1 & _ & _ & R).
+    destruct (R k') as (_ & _ & (l & Hl & Hx) & RI & _).
+    unfold load_okb. rewrite Hl. apply forallb_forall. intros e Hin. apply andb_true_iff. split.
+    + pose proof (Hx e Hin) as Hh. unfold has in Hh. unfold exists_file.
+      destruct (files (crash_fs H shuffle false false true sj o k') (FBlob (fst e))); [reflexivity|contradiction].
+    + destruct (mt (fst e)) eqn:Em; [|reflexivity]. cbn. rewrite Hl in RI. destruct RI as [RI|RI].
+      * destruct (inv_index sj Ij) as (l0 & Hl0 & He). rewrite Hl0 in RI. injection RI as <-.
+        exact (Dj _ (He e Hin) Em).
+      * destruct (inv_index _ I1) as (l1 & Hl1 & He). rewrite Hl1 in RI. injection RI as <-.
+        exact (decinv_step sj o Dj Oj _ (He e Hin) Em).
+  - rewrite Ef. apply load_ok_state; [apply inv_run; exact I|apply decinv_run; [exact D|exact A]].
+Qed.
+
+(* every theorem about primitives applies to the calls of an API history: the cut of a call is
+   a crash state of one primitive of its expansion, between quiescent states *)
+Theorem api_crash_safe (h : list acall) (a : api) k :
+  let s := runA h init in
+  let os := expd s a in
+  let fsk := crash_seq H shuffle false false true s os k in
+  (exists pre o post,
+     os = pre ++ o :: post /\
+     let sj := run H shuffle false false true pre s in
+     Recoverable H (sfs sj) fsk (sfs (run_op H shuffle false false true sj o))) \/
+  (fsk = sfs (run H shuffle false false true os s) /\ Good fsk).
+Proof.
+  intros s os fsk.
+  assert (I : Inv s) by (apply inv_runa; apply inv_init).
+  destruct (seq_cut os s k) as [(pre & o & post & k' & Eq & Ec)|Ef].
+  - left. exists pre, o, post. split; [exact Eq|]. cbn zeta. unfold fsk. rewrite Ec.
+    apply op_safe. apply inv_run. exact I.
+  - right. split; [exact Ef|]. unfold fsk. rewrite Ef. apply inv_good. apply inv_run. exact I.
+Qed.
+
+End Api.
+
 End Crash.
 
 (* ---------- the code before the repair: index.json written in place ---------- *)
@@ -1943,4 +2168,27 @@ Theorem completed_tag_survives_src :
       exists l, read_index (sfs (runc H shuffle src_inplace src_unlink_first true h init)) = Some l /\
                 tag_of l r d.
 Proof. rewrite src_inplace_false, src_unlink_first_false. exact completed_tag_survives. Qed.
+
+Theorem api_crash_load_ok_src :
+  forall (H : list N -> N) (shuffle : nat -> list entry -> list entry),
+    (forall c l e, In e (shuffle c l) <-> In e l) ->
+    forall (mt dec : N -> bool) (h : list acall) (a : api) (k : nat),
+      let s := runa H shuffle src_inplace src_unlink_first true mt dec h init in
+      load_okb mt dec (crash_seq H shuffle src_inplace src_unlink_first true s (expand H mt dec s a) k) = true.
+Proof. rewrite src_inplace_false, src_unlink_first_false. exact api_crash_load_ok. Qed.
+
+Theorem api_crash_safe_src :
+  forall (H : list N -> N) (shuffle : nat -> list entry -> list entry),
+    (forall c l e, In e (shuffle c l) <-> In e l) ->
+    forall (mt dec : N -> bool) (h : list acall) (a : api) (k : nat),
+      let s := runa H shuffle src_inplace src_unlink_first true mt dec h init in
+      let os := expand H mt dec s a in
+      let fsk := crash_seq H shuffle src_inplace src_unlink_first true s os k in
+      (exists pre o post,
+         os = pre ++ o :: post /\
+         let sj := run H shuffle src_inplace src_unlink_first true pre s in
+         Recoverable H (sfs sj) fsk (sfs (run_op H shuffle src_inplace src_unlink_first true sj o))) \/
+      (fsk = sfs (run H shuffle src_inplace src_unlink_first true os s) /\
+       layout_ok fsk /\ blob_ok H fsk /\ index_ok fsk).
+Proof. rewrite src_inplace_false, src_unlink_first_false. exact api_crash_safe. Qed.
 
